@@ -420,6 +420,10 @@ func c03Views(c *mc.Ctx, w *ref.Wire, img []byte, desc func() string) {
 	if err != nil || k != len(orig) || !bytes.Equal(dst[:k], orig) || dst[k] != 0xC3 {
 		c.Failf("view-reserialise", "%s: %s.MarshalTo = %d, %v: %s; want %s", desc(), name, k, err, hx(dst[:len(orig)]), hx(orig))
 	}
+	exact := make([]byte, len(orig))
+	if k, err := v.MarshalTo(exact); err != nil || k != len(orig) || !bytes.Equal(exact, orig) {
+		c.Failf("view-reserialise", "%s: %s.MarshalTo into exactly MarshalSize() = %d bytes: %d, %v: %s; want %s", desc(), name, len(orig), k, err, hx(exact), hx(orig))
+	}
 	if len(orig) > 0 {
 		if _, err := v.MarshalTo(dst[:len(orig)-1]); err == nil {
 			c.Failf("view-reserialise", "%s: %s.MarshalTo into %d bytes succeeded, needs %d", desc(), name, len(orig)-1, len(orig))
